@@ -7,6 +7,7 @@ def main(tier, replay=None):
         return vk_replay("C13", replay)
     res = Result("C13", tier, "exploration")
     fams = [dict(scn="local", name="c13-" + f, opts=["mode=c13", "family=" + f] + (["thorough=1"] if tier == "thorough" else []), bounds="0,0,0,0", total=0, deadline=1500, qcap=2000000) for f in ("select", "perm", "instr", "owner", "hdr")]
+    fams.append(dict(scn="local", name="c13-control-file-io", opts=["mode=c13", "family=qmailio"], bounds="0,1,0,0", total=1, deadline=900))
     plain_src = run_families(res, "C13", tier, fams)
     res.rule = ("real qmail-local (-n and real mode, real fork/exec of a /bin/sh stand-in, real maildir child, real qmail-queue for forwards) in a "
                 "virtual home.  select: all 256 subsets of 8 .qmail files x 16 extensions (case incl. the boundary letter Z, dots, slashes, trailing dash, 'default'); perm: "
